@@ -13,7 +13,8 @@
      outcome (Ok vs Panic) and value are compared.
    codes: 0 agree, 1 crash/no-crash disagreement (implementation panics where the
    model returns, or the reverse), 2 skipped, 3 returned values differ,
-   4 tested-only component crashed / hung. *)
+   4 tested-only component crashed / hung, 5 implementation and model both panic
+   (a genuine defect the model reproduces). *)
 From Verif Require Export Base.GoSem Base.GoStrings Css.Urls Css.PageSel Css.HtmlAttr Css.SvgAttr.
 From Coq Require Import List ZArith NArith Bool.
 Import ListNotations.
@@ -136,7 +137,7 @@ Definition crash_agree (m i : N) : bool := Bool.eqb (N.eqb m 2) (N.eqb i 2).
 Definition verdict (m_oc i_oc : N) (same_value : bool) : N :=
   if N.eqb m_oc 9 then 1%N
   else if negb (crash_agree m_oc i_oc) then 1%N
-  else if N.eqb m_oc 2 then 0%N                    (* both panic: same (modelled) defect *)
+  else if N.eqb m_oc 2 then 5%N                    (* both panic: a modelled, genuine defect *)
   else if negb (N.eqb m_oc i_oc) then 3%N
   else if same_value then 0%N else 3%N.
 
